@@ -30,6 +30,9 @@ let site_name (s : BinNums.coq_N) : string =
   | 117 -> "remux.(*rtmp2MpegtsFilter).Push:index"
   | 118 -> "remux.(*Rtmp2MpegtsRemuxer).feedAudio:index"
   | 119 -> "remux.(*Rtmp2RtspRemuxer).remux:slice"
+  | 120 -> "rtprtcp.IsAvcBoundary:index"
+  | 121 -> "rtprtcp.IsHevcBoundary:index"
+  | 122 -> "remux.(*Rtmp2RtspRemuxer).FeedRtmpMsg:explicit"
   | n -> Printf.sprintf "site%d:?" n
 
 let panic_tok s = "panic@" ^ site_name s
